@@ -762,9 +762,15 @@ func Y(site int) {
 	// an exhausted budget aborts the operation at the END of this yield point:
 	// the step must count towards the pending preemption like any other, or a
 	// replay (whose tape measures distances in steps) would drift by one
-	over := t.opSteps > t.opLimit
+	// (an operation that holds a simulated lock is let run until it has released
+	// it, within twice the budget: the abort is the simulator's own device, a
+	// real endless loop would simply hang, and unwinding a critical section that
+	// has no deferred unlock would leave the lock held for everything that
+	// follows in the process)
+	over := t.opSteps > t.opLimit && (t.held <= 0 || t.opSteps > 2*t.opLimit)
 	if over {
 		t.opSteps = 0
+		t.held = 0
 		BudgetAborts++
 	}
 	if gcNext < nGC && Steps >= gcAt[gcNext] {
